@@ -186,7 +186,7 @@ func (d *Datastore) listRawIntent(ctx context.Context) ([]*sdcpb.Intent, error) 
 	intents := make([]*sdcpb.Intent, 0, numUpds)
 	for _, upd := range upds {
 		if len(upd.GetPath()) == 0 {
-			return nil, fmt.Errorf("malformed raw intent name: %q", upd.GetPath()[0])
+			return nil, fmt.Errorf("malformed raw intent name: empty path")
 		}
 		intentRawName := strings.TrimPrefix(upd.GetPath()[0], rawIntentPrefix)
 		intentNameComp := strings.Split(intentRawName, intentRawNameSep)
